@@ -270,7 +270,7 @@ func checkCanonicalParse(p *Program, r *Result, parse, rs, ivs, dec *ssa.Functio
 			if decidedByEval {
 				break
 			}
-			if l.Kind != "rangeiter" || stripConv(l.Over) != ivs.Params[0] || len(l.earlyExits()) != 0 {
+			if l.Kind != "rangeiter" || stripConv(l.Over) != ivs.Params[0] || len(p.loopEarlyExits(l)) != 0 {
 				continue
 			}
 			lo, hi := false, false
